@@ -348,8 +348,49 @@ func anyCmp(x, y any) int {
 // ctorCheck: slices passed to the variadic constructors are copied.
 func ctorCheck(kind string, st *Stats) *Viol {
 	p := tag("C16")
-	tuples := [][]int{{1}, {1, 2}, {2, 1, 3}, {3, 3, 1}, intRange(1, 17), intRange(1, 33), intRange(1, 70)}
+	// (1100 / 2100 values: a bulk path that adopts the argument may exist only for long batches, after C16-15)
+	tuples := [][]int{{1}, {1, 2}, {2, 1, 3}, {3, 3, 1}, intRange(1, 17), intRange(1, 33), intRange(1, 70), intRange(1, 1100), intRange(1, 2100)}
 	for _, t := range tuples {
+		// the same batch given to Add on a container that owns no storage yet
+		{
+			arg0 := argSlice(t)
+			var vals0 func() []int
+			var obj0 any
+			switch kind {
+			case "arraylist":
+				c := arraylist.New[int]()
+				c.Add(arg0...)
+				vals0, obj0 = c.Values, c
+			case "singlylinkedlist":
+				c := singlylinkedlist.New[int]()
+				c.Add(arg0...)
+				vals0, obj0 = c.Values, c
+			case "doublylinkedlist":
+				c := doublylinkedlist.New[int]()
+				c.Add(arg0...)
+				vals0, obj0 = c.Values, c
+			case "hashset":
+				c := hashset.New[int]()
+				c.Add(arg0...)
+				vals0, obj0 = c.Values, c
+			case "linkedhashset":
+				c := linkedhashset.New[int]()
+				c.Add(arg0...)
+				vals0, obj0 = c.Values, c
+			case "treeset":
+				c := treeset.New[int]()
+				c.Add(arg0...)
+				vals0, obj0 = c.Values, c
+			default:
+				return nil
+			}
+			before := vals0()
+			k0 := Canon(CanonOpts{}, obj0)
+			scribble(arg0, -99)
+			if after := vals0(); !sameMultiset(before, after) || Canon(CanonOpts{}, obj0) != k0 {
+				return viol(p, "invariant", "%s: New() then Add(%d values...): writing to the caller's slice afterwards changed the container", kind, len(t))
+			}
+		}
 		arg := argSlice(t)
 		var vals func() []int
 		var add func(...int)
@@ -380,7 +421,7 @@ func ctorCheck(kind string, st *Stats) *Viol {
 		k0 := Canon(CanonOpts{}, obj)
 		scribble(arg, -99)
 		if after := vals(); !sameMultiset(before, after) || Canon(CanonOpts{}, obj) != k0 {
-			return viol(p, "invariant", "%s.New(%v...): writing to the caller's slice afterwards changed the container from %v to %v", kind, t, before, after)
+			return viol(p, "invariant", "%s.New(%d values...): writing to the caller's slice afterwards changed the container from %s to %s", kind, len(t), clipSlice(before), clipSlice(after))
 		}
 		// and the other direction: growing the container must not write into the caller's slice
 		arg2 := argSlice(t)
